@@ -446,9 +446,11 @@ func deleteRecords(freeBatch []*types.Block, maxFileSize uint32, basePath string
 				}
 			}
 
-			file, err = os.OpenFile(primaryFileName(basePath, fileNum), os.O_RDWR, 0644)
+			primaryPath := primaryFileName(basePath, fileNum)
+			file, err = os.OpenFile(primaryPath, os.O_RDWR, 0644)
 			if err != nil {
-				log.Errorw("Cannot open primary file", "file", file.Name(), "err", err)
+				log.Errorw("Cannot open primary file", "file", primaryPath, "err", err)
+				file = nil
 				continue
 			}
 			fi, err := file.Stat()
